@@ -927,7 +927,7 @@ def cmp_c20_untyped(payload, impl, model):
 
 PROPS["C20"] = dict(
     coq="Properties_C20",
-    level_text="Proved in Coq (TagProof.v): wherever a value of a type registered with a tag (struct-map or transform entry) is marshalled — marshal_bare is what every position calls — the first token of its item carries exactly that tag, and tags sit on first tokens of items only (the stream is the flattening of a value tree); the CBOR encoder writes each tag head immediately before its item and the decoder folds it back (C02/C04: rfc_enc / parse_item carry the tag of every node). On the unmarshaller model: a tagged token reaching an untyped slot is unmarshalled as the registered type and stored with that dynamic type; an unregistered tag there is an error on that token. Tied to the code by the obj-marshal suite (tag positions and numbers across all head sizes), foreign CBOR with registered / unregistered / relocated tags decoded into interface{}, and the round-trip bytes.",
+    level_text="Proved in Coq (TagProof.v): wherever a value of a type registered with a tag (struct-map or transform entry) is marshalled — marshal_bare is what every position calls — the first token of its item carries exactly that tag, and tags sit on first tokens of items only (the stream is the flattening of a value tree); per position (TagPositions.v): the stream of a slice, array, map or struct-map value is cut into the segments of its members, each being what the marshaller yields for that member alone, and every member of (a pointer, at any depth, to) the tagged type — slice / array element, map value, struct field, behind pointers, inside an untyped or interface slot — starts with exactly the tag, or is the lone null of a nil pointer; the CBOR encoder writes each tag head immediately before its item and the decoder folds it back (C02/C04: rfc_enc / parse_item carry the tag of every node). On the unmarshaller model: a tagged token reaching an untyped slot is unmarshalled as the registered type and stored with that dynamic type; an unregistered tag there is an error on that token. Tied to the code by the obj-marshal suite (tag positions and numbers across all head sizes), foreign CBOR with registered / unregistered / relocated tags decoded into interface{}, and the round-trip bytes.",
     level_note="Trusted as in trusted_base. Entries built with UseTag + MapMorphism/KeyedUnion never emit their tag (outside the property's quantifier; recorded in DESIGN.md). No axioms.",
     rule="obj-marshal / cbor-tags cases; non-trivial = at least one tag in the model's tokens or input; distinct by payload",
     trusted_base=_OBJ_TB,
